@@ -55,6 +55,9 @@ def run(chk):
     strings(chk, cfun)
     delimiters(chk, cfun, suffix)
     python_side(chk, repo)
+    # the converter used before a text write decides on every field with a byte order (shared rule with C16)
+    from checks import C16
+    C16.r16_6(chk, repo, rule="R04.3n", only="esutil.recfile.Util.to_native_inplace")
 
 
 # ---------------------------------------------------------------------------
